@@ -93,7 +93,9 @@ def show(m):
         return "(" + " ".join(show(c) for c in m) + ")"
     if isinstance(m, M.List):
         return "[" + " ".join(show(c) for c in m) + "]"
-    if isinstance(m, (M.Symbol, M.Integer)):
+    if isinstance(m, M.Integer):
+        return str(int(m))
+    if isinstance(m, M.Symbol):
         return str(m)
     if isinstance(m, M.Keyword):
         return ":" + m.name
@@ -121,16 +123,16 @@ def run_stream(env, text, tag):
     recs = []
     M.rec = lambda *a: recs.append(_jsonable(a))
     forms = []
-    lazy = hy.read_many(text, filename="<c37-%s>" % tag)
 
     def tap(it):
         for f in it:
             forms.append(show(f))
             yield f
-    lazy2 = hy.models.Lazy(tap(lazy))
-    lazy2.source, lazy2.filename, lazy2.reader = lazy.source, lazy.filename, lazy.reader
     exc = None
     try:
+        lazy = hy.read_many(text, filename="<c37-%s>" % tag)
+        lazy2 = hy.models.Lazy(tap(lazy))
+        lazy2.source, lazy2.filename, lazy2.reader = lazy.source, lazy.filename, lazy.reader
         hy.eval(lazy2, module=M)
     except BaseException as e:
         exc = (type(e).__name__, [c.__name__ for c in type(e).__mro__], str(getattr(e, "msg", e))[:120])
